@@ -173,14 +173,17 @@ def replay_file(path):
         shutil.rmtree(scratch, ignore_errors=True)
 
 
-def public_witness(ws, entry_text, scratch, maxlen=5, timeout=180):
+def public_witness(ws, entry_text, scratch, maxlen=5, timeout=180, lazy=False):
     """Native search for a haystack on which a PUBLIC search method disagrees with the brute-force
     oracle (turns a table-level counterexample into something a user can run; decides nothing)."""
     path = os.path.join(scratch, "witness-plan.txt")
     open(path, "w").write(entry_text)
+    env = dict(os.environ)
+    if lazy:
+        env["VTOOL_WITNESS_LAZY"] = "1"
     try:
         p = subprocess.run([ws.vtool, "witness", path, str(maxlen)], stdout=subprocess.PIPE,
-                           stderr=subprocess.DEVNULL, text=True, timeout=timeout)
+                           stderr=subprocess.DEVNULL, text=True, timeout=timeout, env=env)
     except subprocess.TimeoutExpired:
         return dict(search="timed out")
     for line in p.stdout.splitlines():
@@ -226,4 +229,7 @@ def witness_for_step(ws, harness, prop, seed, scratch, timeout=420):
         c = e.clone("w%d_%s" % (i, e.name))
         c.emits = ["T1"]
         text += c.plan()
-    return public_witness(ws, text, scratch, maxlen=5, timeout=timeout)
+    # S-lazy: the defect is in WHEN the source is pulled, not in the matches: the witness search runs the
+    # *_from_iter entry points on a counting source
+    return public_witness(ws, text, scratch, maxlen=4 if harness.startswith("s_lazy") else 5, timeout=timeout,
+                          lazy=harness.startswith("s_lazy"))
